@@ -770,18 +770,23 @@ fn with(mut m: Vec<RP>, extra: &[RP]) -> Vec<RP> {
 struct Case {
     sec: char,
     extra: Vec<RP>,
+    /// append the pairs as they are (repetitions kept) instead of replacing pairs with the same key
+    raw_append: bool,
     label: String,
     expect: Option<bool>,
 }
 fn case(sec: char, extra: Vec<RP>, label: &str, expect: Option<bool>) -> Case {
-    Case { sec, extra, label: label.to_string(), expect }
+    Case { sec, extra, raw_append: false, label: label.to_string(), expect }
+}
+fn case_raw(sec: char, extra: Vec<RP>, label: &str, expect: Option<bool>) -> Case {
+    Case { sec, extra, raw_append: true, label: label.to_string(), expect }
 }
 
 /// one map (K `psetmap.*`) and the same map inside a minimal PSET (K `psetdec`); returns the map bytes and
 /// whether the whole PSET was accepted
 fn targeted_case(cx: &mut Cx, rng: &mut R, c: &Case) -> (Vec<u8>, bool) {
     let base = match c.sec { 'g' => min_global(0, 0), 'i' => min_input(rng), _ => min_output(rng) };
-    let m = with(base, &c.extra);
+    let m = if c.raw_append { let mut b = base; b.extend(c.extra.iter().cloned()); b } else { with(base, &c.extra) };
     let mb = ser_map(&m);
     let real = map_op_sec(cx, c.sec, &mb);
     let map_ok = real.starts_with("ok");
@@ -1154,6 +1159,19 @@ fn targeted(cx: &mut Cx, rng: &mut R, first_only: bool) {
         cs_.push(case('g', vec![rp(0xfc, &fc(b"pset", 0, &[]), &[])], "scalar.key_empty", Some(false)));
         let t2: Vec<u8> = gen::tweak(rng).as_ref().to_vec();
         cs_.push(case('g', vec![rp(0xfc, &fc(b"pset", 0, &tv), &[]), rp(0xfc, &fc(b"pset", 0, &t2), &[])], "scalar.two", Some(true)));
+        // a repeated scalar key is a duplicate key WHEREVER it stands: all 105 orderings of length 2..4 over three
+        // scalars a < b < c that contain a repetition (and the 12 without one, accepted)
+        let mut abc: Vec<Vec<u8>> = (0..3).map(|_| gen::tweak(rng).as_ref().to_vec()).collect();
+        abc.sort();
+        for len in 2..=4usize {
+            for code in 0..3usize.pow(len as u32) {
+                let idx: Vec<usize> = (0..len).map(|k| (code / 3usize.pow(k as u32)) % 3).collect();
+                let repeated = (0..len).any(|i| (0..i).any(|j| idx[i] == idx[j]));
+                let pairs: Vec<RP> = idx.iter().map(|&i| rp(0xfc, &fc(b"pset", 0, &abc[i]), &[])).collect();
+                let name: String = idx.iter().map(|&i| ["a", "b", "c"][i]).collect();
+                cs_.push(case_raw('g', pairs, &format!("scalar.order.{}", name), Some(!repeated)));
+            }
+        }
     }
     // integer widths
     for l in [0usize, 3, 4, 5] {
